@@ -60,6 +60,7 @@ class IdealReservoir:
             times to solve for pressure
         """
         self.time = time
+        self._clear_recovery()
         x = np.linspace(0, 1, self.nx)
         dx_squared = (x[1] - x[0]) ** 2
         pseudopressure = np.empty((len(time), self.nx))
@@ -135,6 +136,11 @@ class IdealReservoir:
         )
         return interpolator
 
+    def _clear_recovery(self):
+        """Forget recovery cached from an earlier simulation."""
+        if hasattr(self, "recovery"):
+            del self.recovery
+
     def alpha_scaled(self, pseudopressure: ndarray) -> ndarray:
         """Calculate scaled diffusivity."""
         return np.ones_like(pseudopressure)
@@ -181,6 +187,7 @@ class SinglePhaseReservoir(IdealReservoir):
         ValueError: wrong length changing pressure at frac-face
         """
         self.time = time
+        self._clear_recovery()
         dx_squared = (1 / self.nx) ** 2
         pseudopressure = np.empty((len(time), self.nx))
         if pressure_fracface is None:
